@@ -2,12 +2,17 @@ import AasVerif.Model.Expr.Wire
 import AasVerif.Model.Expr.Eval
 import AasVerif.Model.SdkVerify
 import AasVerif.Model.PyEmit
+import AasVerif.Model.PyParse
 import AasVerif.Model.PyRules
 /-!
 Line protocol of C08.
 
     verify <world> <val>      → the errors in order, then the exception (if any)
     eval   <world> <expr>     → outcome of `Expr.eval` with `self` etc. bound by the world
+    emit   <cfg> <top> <expr> → `ok <parenOK> <pyexpr> <tokens> <reading>`: the transpiled expression, its token
+                                sequence (`PyEmit.print`) and what `PyEmit.parse` reads from it
+                                (`ok:<1 iff equal to strip>:<pyexpr>` | `outside` | `fail`)
+    pyparse <tokens>          → `ok <pyexpr>` | `outside` | `fail` (`PyEmit.parse`)
 
 All structured arguments are comma-separated prefix token streams (no spaces):
 
@@ -332,6 +337,73 @@ mutual
     | .paren e => "P" :: encPy e
 end
 
+/-! ### tokens -/
+open AasVerif.PyEmit in
+def encTok : Tok → String
+  | .that => "T"
+  | .var x => "V:" ++ Text.enc x
+  | .constRef x => "C:" ++ Text.enc x
+  | .enumRef x => "E:" ++ Text.enc x
+  | .funRef x => "F:" ++ Text.enc x
+  | .noneK => "N" | .trueK => "t" | .falseK => "f"
+  | .int n => "I:" ++ toString n
+  | .float r => "D:" ++ Text.enc r
+  | .str s => "S:" ++ Text.enc s
+  | .fstart => "fs" | .fmid s => "fm:" ++ Text.enc s | .lbrace => "{" | .rbrace => "}" | .fend => "fe"
+  | .lpar => "(" | .rpar => ")" | .lbrack => "[" | .rbrack => "]" | .comma => "c" | .dot => "d"
+  | .attrName k n => (match k with | .prop => "aP:" | .enumLit => "aL:" | .method => "aM:") ++ Text.enc n
+  | .plus => "pl" | .minus => "mi"
+  | .cmp c => Expr.Wire.encCmp c
+  | .kwIn => "in" | .kwIs => "is" | .kwNot => "not" | .kwAnd => "and" | .kwOr => "or" | .kwFor => "for"
+  | .anyK => "any" | .allK => "all" | .rangeK => "range"
+
+open AasVerif.PyEmit in
+def decTok (s : String) : Option Tok :=
+  match s.splitOn ":" with
+  | ["T"] => some .that
+  | ["V", x] => (Text.dec x).map .var
+  | ["C", x] => (Text.dec x).map .constRef
+  | ["E", x] => (Text.dec x).map .enumRef
+  | ["F", x] => (Text.dec x).map .funRef
+  | ["N"] => some .noneK | ["t"] => some .trueK | ["f"] => some .falseK
+  | ["I", n] => n.toNat?.map .int
+  | ["D", x] => (Text.dec x).map .float
+  | ["S", x] => (Text.dec x).map .str
+  | ["fs"] => some .fstart | ["fm", x] => (Text.dec x).map .fmid
+  | ["{"] => some .lbrace | ["}"] => some .rbrace | ["fe"] => some .fend
+  | ["("] => some .lpar | [")"] => some .rpar | ["["] => some .lbrack | ["]"] => some .rbrack
+  | ["c"] => some .comma | ["d"] => some .dot
+  | ["aP", x] => (Text.dec x).map (.attrName .prop)
+  | ["aL", x] => (Text.dec x).map (.attrName .enumLit)
+  | ["aM", x] => (Text.dec x).map (.attrName .method)
+  | ["pl"] => some .plus | ["mi"] => some .minus
+  | ["lt"] => some (.cmp .lt) | ["le"] => some (.cmp .le) | ["gt"] => some (.cmp .gt)
+  | ["ge"] => some (.cmp .ge) | ["eq"] => some (.cmp .eq) | ["ne"] => some (.cmp .ne)
+  | ["in"] => some .kwIn | ["is"] => some .kwIs | ["not"] => some .kwNot | ["and"] => some .kwAnd
+  | ["or"] => some .kwOr | ["for"] => some .kwFor
+  | ["any"] => some .anyK | ["all"] => some .allK | ["range"] => some .rangeK
+  | _ => none
+
+def encToks (ts : List PyEmit.Tok) : String :=
+  if ts.isEmpty then "[]" else ",".intercalate (ts.map encTok)
+
+def decToks (s : String) : Option (List PyEmit.Tok) :=
+  if s == "[]" then some [] else
+  (s.splitOn ",").foldr (fun p acc => match decTok p, acc with
+    | some t, some l => some (t :: l)
+    | _, _ => none) (some [])
+
+/-- what `PyEmit.parse` reads; `want`: the tree it should be (for the equality flag) -/
+def encReading (r : PyEmit.PR PyEmit.PyExpr) (want : Option PyEmit.PyExpr) : String :=
+  match r with
+  | .ok y _ =>
+    let w := ",".intercalate (encPy y)
+    match want with
+    | some x => "ok:" ++ b01 (w == ",".intercalate (encPy x)) ++ ":" ++ w
+    | none => "ok " ++ w
+  | .outside => "outside"
+  | .fail => "fail"
+
 /-! ### parse rules -/
 open AasVerif.PyAst in
 def pCmpOp : String → Option PyCmpOp
@@ -419,9 +491,15 @@ def handle : List String → Option String
     let e ← Expr.Wire.dec e
     let r := if top == "1" then PyEmit.transpileInvariant cfg e else PyEmit.transpile cfg [] e
     match r with
-    | .ok x => some ("ok " ++ b01 (PyEmit.parenOK x) ++ " " ++ ",".intercalate (encPy x))
+    | .ok x =>
+      let toks := PyEmit.print x
+      some ("ok " ++ b01 (PyEmit.parenOK x) ++ " " ++ ",".intercalate (encPy x) ++ " " ++ encToks toks ++ " " ++
+        encReading (PyEmit.parse toks) (some (PyEmit.strip x)))
     | .err => some "err"
     | .crash => some "crash"
+  | ["pyparse", ts] => do
+    let ts ← decToks ts
+    some (encReading (PyEmit.parse ts) none)
   | ["verify", w, v] => do
     let w ← decAll pWorld w
     let v ← decAll pVal v
